@@ -504,6 +504,10 @@ impl Solo {
                     return;
                 }
                 let mut p = self.cfg.connack_pkt(*sp, *rc);
+                if !self.acting_client {
+                    // a Session Expiry override is only explored where the library interprets it (received CONNACK)
+                    p.props.retain(|x| !matches!(x, Prop::SessionExpiry(_)));
+                }
                 if self.alt == 1 {
                     p.props.clear();
                 } else if self.alt == 2 && self.cfg.wire_v == 5 && p.rc_or0() == 0 {
@@ -516,7 +520,7 @@ impl Solo {
                 } else {
                     self.app_send(&p);
                 }
-                if was == St::Connecting && self.w.m.st == St::Connected && !p.sp {
+                if was == St::Connecting && self.w.m.st == St::Connected && (!p.sp || p.prop_sei() == Some(0)) {
                     self.peer_q2.clear();
                     self.owned.clear();
                 }
@@ -808,6 +812,8 @@ impl Solo {
                 let id = held[*nth as usize % held.len()];
                 let evs = self.w.release(id);
                 self.handle(&evs);
+                // given up by the application whether or not the library still knew it
+                self.owned.remove(&id);
             }
             Op::ReleaseRaw { id } => {
                 // never an id that an accepted send owns
@@ -1370,7 +1376,8 @@ pub fn gen_cfg(r: &mut Rng, faults: bool) -> Cfg {
         c.c_mps = *r.pick(&mps);
         c.s_mps = *r.pick(&mps);
         c.s_ska = *r.pick(&[None, None, Some(0u16), Some(5)]);
-        c.s_sei = None;
+        // the server may override the session expiry in CONNACK (client side of E only)
+        c.s_sei = if as_client { *r.pick(&[None, None, None, Some(0u32), Some(50)]) } else { None };
     }
     if faults {
         c.f_loss = r.chance(3, 4);
